@@ -175,6 +175,13 @@ DOC_DEPS = [
      "script": [{"src": "u.js"}], "stylesheet": [], "meta": [], "all_files": False, "head": None},
     {"name": "dep", "version": "1.10", "source": None, "script": [], "stylesheet": [],
      "meta": [], "all_files": True, "head": "<title>t</title>"},
+    # same name AND version as DOC_DEPS[0] but a different definition: a distinct serialisation
+    {"name": "dep", "version": "1.2", "source": {"subdir": "lib/x"}, "script": [{"src": "other.js"}],
+     "stylesheet": [], "meta": [], "all_files": False, "head": None},
+    # backslashes / regex-template look-alikes in head and meta (rendered into the placeholder)
+    {"name": "bs", "version": "3", "source": None, "script": [], "stylesheet": [],
+     "meta": [{"name": "path", "content": "C:\\new\\tools \\1 \\g<0>"}], "all_files": False,
+     "head": "<script>var s = 'a\\nb\\\\c \\1';</script>"},
 ]
 SURROUND = ["", "<p>x</p>\n", "</script>", "<script>", PLACEHOLDER, "é<b>&amp;</b>"]
 
@@ -185,8 +192,9 @@ def fn_document(case):
     texts, idxs, indent = case
     viols = []
     sers = []
-    for i in idxs:
-        _, t = serialise(DOC_DEPS[i], indent)
+    mixed = indent == "mixed"
+    for k, i in enumerate(idxs):
+        _, t = serialise(DOC_DEPS[i], (None if k % 2 == 0 else 2) if mixed else indent)
         sers.append(t)
     html = texts[0]
     for t, x in zip(sers, texts[1:]):
@@ -194,9 +202,9 @@ def fn_document(case):
     plain = "".join(texts)
     # expected: once per distinct serialisation, order of first appearance
     seen, order = set(), []
-    for i in idxs:
-        if i not in seen:
-            seen.add(i)
+    for i, t in zip(idxs, sers):
+        if t not in seen:          # once per distinct serialisation (text), first appearance
+            seen.add(t)
             order.append(DOC_DEPS[i])
     try:
         doc = HTMLTextDocument(html, deps_replace_pattern=PLACEHOLDER)
@@ -280,7 +288,7 @@ def plan(tier):
     for n in range(1, nmax + 1):
         docs.append(Prod(Seq(Const(SURROUND if (tier != "quick" or n < 2) else SURROUND[:5]), n + 1, n + 1),
                          Seq(Const(list(range(len(DOC_DEPS)))), n, n),
-                         Const([None] if n > 1 else INDENTS)))
+                         Const([None, "mixed"] if n > 1 else INDENTS)))
     from ..space import Alt
     out.append(dict(kind="space", name="documents", space=Alt(*docs), fn=fn_document, execs=2,
                     note=f"documents of 1..{nmax} serialised copies of {len(DOC_DEPS)} dependencies "
